@@ -37,9 +37,29 @@ def apply_transform(fn, limit: int = 20):
         signal.setitimer(signal.ITIMER_REAL, 0)
 
 
-def make_pairs(progs_src, configs, rng, nvec: int, stats: Counter, vectors_fn=None, pid0: int = 0):
+def _agree_records(fn, res, vec, pred, meta, agree, stats):
+    """The machine cannot run one of the two programs (a construct it does not model): the real interpreter's outcomes on the original and
+    on the transformed program are still a pair the specification can judge (spec/Agree.tla: same shape, lengths, booleans, number bits)."""
+    n = 0
+    for (args, ctx) in vec:
+        if pred is not None and not pred(args):
+            continue
+        try:
+            a = progrun.run_real(fn, args, ctx)
+            b = progrun.run_real(res, args, ctx)
+        except Exception:       # noqa: BLE001
+            continue
+        if 'ood' in a or 'ood' in b:
+            continue
+        agree.append(dict(meta, a=a, b=b, args=repr(args), ctx=str(ctx)))
+        n += 1
+    stats['pairs-judged-on-interpreter-outcomes-only'] += 1 if n else 0
+
+
+def make_pairs(progs_src, configs, rng, nvec: int, stats: Counter, vectors_fn=None, pid0: int = 0, agree=None):
     """progs_src: list of (name, Function, source).  configs: list of (cfgname, fn -> Function).
-    Returns (pairs, timeouts) where a pair is (orig_prog, xf_prog, meta)."""
+    Returns (pairs, timeouts) where a pair is (orig_prog, xf_prog, meta).  With `agree` (a list), programs the machine cannot run are
+    still compared: (original outcome, transformed outcome) records are appended to it for run_agree."""
     pairs, timeouts = [], []
     pid = pid0
     for (name, fn, src) in progs_src:
@@ -51,6 +71,23 @@ def make_pairs(progs_src, configs, rng, nvec: int, stats: Counter, vectors_fn=No
             continue
         if isinstance(base, tuple):
             stats['orig-' + base[0]] += 1
+            if agree is not None and base[0] == 'unsupported':
+                for cfg in configs:
+                    st, res = apply_transform(lambda: cfg[1](fn))
+                    if st == 'timeout':
+                        timeouts.append({'program': name, 'config': cfg[0], 'src': src})
+                        break
+                    if st != 'ok':
+                        stats['declined'] += 1
+                        continue
+                    try:
+                        text = res.format()
+                    except Exception:       # noqa: BLE001
+                        text = ''
+                    if text == fn.format():
+                        continue
+                    _agree_records(fn, res, vec, cfg[2] if len(cfg) > 2 else None,
+                                   {'program': name, 'config': cfg[0], 'src': src, 'xsrc': text}, agree, stats)
             continue
         seen = {fn.format()}
         nto = 0
@@ -82,6 +119,8 @@ def make_pairs(progs_src, configs, rng, nvec: int, stats: Counter, vectors_fn=No
                 xp, _ = export_program(res, pid)
             except (Unsupported, OutOfDomain) as e:
                 stats['xform-unsupported'] += 1
+                if agree is not None and isinstance(e, Unsupported):
+                    _agree_records(fn, res, vec, pred, {'program': name, 'config': cname, 'src': src, 'xsrc': text or ''}, agree, stats)
                 continue
             # same input vectors as the original (those that were exportable)
             # first call compiles the function: do it outside the per-input time limit
@@ -160,6 +199,42 @@ def run_equiv(pairs, timeout: int = 3000):
         return mm, skips, gen, dis
     finally:
         shutil.rmtree(work, ignore_errors=True)
+
+
+def _zero_sign_only(a, b):
+    if isinstance(a, dict) and isinstance(b, dict):
+        if a.get('k') == 'fin' and b.get('k') == 'fin' and a.get('n') == 0 and b.get('n') == 0:
+            return True
+        return a.keys() == b.keys() and all(_zero_sign_only(a[k], b[k]) for k in a)
+    if isinstance(a, list) and isinstance(b, list):
+        return len(a) == len(b) and all(_zero_sign_only(x, y) for x, y in zip(a, b))
+    return a == b
+
+
+def run_agree(rep: core.Report, agree, extra_key=None, precondition_error=None):
+    """TLC (spec/Agree.tla) over (original outcome, transformed outcome) records of the real interpreter."""
+    if not agree:
+        rep.cov['interpreter_outcome_pairs'] = 0
+        return
+    for i, r in enumerate(agree):
+        r['tid'] = i
+    out = core.validate_trace('Agree', [{'tid': r['tid'], 'a': r['a'], 'b': r['b']} for r in agree], cfg='Agree')
+    rep.add_tlc(out.generated, out.distinct)
+    names = {'compiled-code-failed': 'transformed-raises', 'compiled-result-differs': 'transformed-value'}
+    n = 0
+    for mm in out.mismatches:
+        r = agree[mm[0]]
+        clause = names.get(mm[1], mm[1])
+        if clause == 'transformed-raises' and precondition_error is not None and precondition_error(r, r['b'].get('err', '')):
+            continue
+        if clause == 'transformed-value' and 'RTN' in (r['src'] + r['xsrc'] + r['ctx']) and _zero_sign_only(r['a'], r['b']):
+            continue            # the sign of an exactly cancelled sum under RTN is left open
+        key = {'clause': clause, 'config': r['config']}
+        if extra_key:
+            key.update(extra_key(r, clause))
+        rep.mismatch(key, {k: r[k] for k in ('program', 'config', 'src', 'xsrc', 'args', 'ctx', 'a', 'b')} | {'clause': clause})
+        n += 1
+    rep.cov['interpreter_outcome_pairs'] = len(agree)
 
 
 def report(rep: core.Report, pairs, timeouts, mm, skips, stats, extra_key=None, precondition_error=None):
